@@ -161,6 +161,12 @@ theorem step_ok {st : State} {qs : List Spec.Queue} (hi : Inv st) (hr : Rel qs s
   | prependSub v off len =>
     exact upd_ok (fun sp => (sp.drop off).take len ++ sp) hi hr hw (fun b hb hl hbd sp hm =>
       (prependSubClamped_ok hb hl hbd off len k).mono (fun _ _ h => ⟨h.1, h.2.1, h.2.2 ▸ ((hm.drop off).take len).append hm⟩))
+  | appendSub v off len =>
+    exact upd_ok (fun sp => sp ++ (sp.drop off).take len) hi hr hw (fun b hb hl hbd sp hm =>
+      (appendSubClamped_ok hb hl hbd off len k).mono (fun _ _ h => ⟨h.1, h.2.1, h.2.2 ▸ hm.append ((hm.drop off).take len)⟩))
+  | assignSub v off len =>
+    exact upd_ok (fun sp => (sp.drop off).take len) hi hr hw (fun b hb hl hbd sp hm =>
+      (assignSubClamped_ok hb hl hbd off len k).mono (fun _ _ h => ⟨h.1, h.2.1, h.2.2 ▸ (hm.drop off).take len⟩))
   | appendData v d =>
     exact upd_ok (fun sp => sp ++ bytesOf d) hi hr hw (fun b hb hl hbd sp hm => (append_ok hb hl hbd (bytesOf d) k).mono
       (fun _ _ h => ⟨h.1, h.2.1, h.2.2 ▸ hm.append (Match.rfl _)⟩))
@@ -239,6 +245,8 @@ theorem step_wf {st st' : State} {k : Nat} {op : Op} (h : step st k op = some st
     · subst hvw; simp only [if_true] at h; exact ⟨upd_some h, upd_some h⟩
     · simp only [hvw, if_false] at h; exact updFrom_some h
   | prependSub v off len => exact upd_some h
+  | appendSub v off len => exact upd_some h
+  | assignSub v off len => exact upd_some h
   | appendData v d => exact upd_some h
   | appendBuf v w =>
     simp only [step] at h
